@@ -91,49 +91,57 @@ def check(chk):
 
     # ------------------------------------------------------------ PAIR-12
     md = repo.cls("mpf/core/mode_device.py", "ModeDevice")
-    n_ref = 0
-    for c in repo.subclasses(md, strict=False):
-        dl = c.methods.get("device_loaded_in_mode")
-        if dl is None:
-            continue
-        pname = "player"
-        bound = []
+
+    def super_chain(c, hook):
+        """Methods executed by c's effective `hook`, following unconditional super().hook(...) calls."""
+        m = repo.lookup_method(c, hook)
+        if m is None or m.cls is md:
+            return []
+        chain = [m]
+        cur = m
+        for _ in range(6):
+            sup = [x for x in ast.walk(cur.node) if isinstance(x, ast.Call) and isinstance(x.func, ast.Attribute) and
+                   x.func.attr == hook and isinstance(x.func.value, ast.Call) and call_attr(x.func.value) == "super"]
+            if not sup or cur.cls is None:
+                break
+            nxt = repo.lookup_method(cur.cls, hook, skip_self=True)
+            if nxt is None or nxt in chain or nxt.cls is md:
+                break
+            ccfg = cur.cfg()
+            sn = [n for n in ccfg.nodes if n.kind != "branch" and any(y is sup[0] for y in n.calls())]
+            if not (sn and ccfg.must_pass(ccfg.entry.id, [sn[0].id]) is None):
+                break
+            chain.append(nxt)
+            cur = nxt
+        return chain
+
+    def bindings(dl):
+        out = []
         for x in walk_local(dl.node):
             if isinstance(x, ast.Assign) and isinstance(x.targets[0], ast.Attribute) and dotted(x.targets[0].value) == "self":
                 v = x.value
-                from_player = (isinstance(v, ast.Name) and v.id == pname) or \
-                              (isinstance(v, ast.Subscript) and isinstance(v.value, ast.Name) and v.value.id == pname)
+                from_player = (isinstance(v, ast.Name) and v.id == "player") or \
+                              (isinstance(v, ast.Subscript) and isinstance(v.value, ast.Name) and v.value.id == "player")
                 if from_player:
-                    bound.append((x.targets[0].attr, x))
+                    out.append((x.targets[0].attr, x))
+        return out
+    n_ref = 0
+    for c in repo.subclasses(md, strict=False):
+        dls = super_chain(c, "device_loaded_in_mode")
+        bound = [(attr, stmt, dl) for dl in dls for attr, stmt in bindings(dl)]
         if not bound:
             continue
-        dr = repo.lookup_method(c, "device_removed_from_mode")
-        chk.analysed(dl, dr)
-        for attr, stmt in bound:
+        chain = super_chain(c, "device_removed_from_mode")
+        dr = chain[0] if chain else None
+        chk.analysed(*(dls + chain))
+        for attr, stmt, dl in bound:
             n_ref += 1
-            key = (c.relpath, c.name, attr)
-            if dr is None or dr.cls is md:
-                chk.ob("PAIR-12", "%s binds self.%s to the player and drops it when the mode unloads the device" % (c.name, attr), False, dl.where(stmt),
-                       detail="no device_removed_from_mode resets it", construct=c.ident, text="self.%s never reset" % attr)
+            key = (dl.cls.relpath if dl.cls else c.relpath, dl.cls.name if dl.cls else c.name, attr)
+            inherited = "" if dl.cls is c else " (bound by %s.device_loaded_in_mode)" % dl.cls.name
+            if dr is None:
+                chk.ob("PAIR-12", "%s binds self.%s to the player%s and drops it when the mode unloads the device" % (c.name, attr, inherited),
+                       False, dl.where(stmt), detail="no device_removed_from_mode resets it", construct=c.ident, text="self.%s never reset" % attr)
                 continue
-            # reset may live in the class' own hook or a base hook reached through super()
-            chain = [dr]
-            cur = dr
-            for _ in range(5):
-                sup = [x for x in ast.walk(cur.node) if isinstance(x, ast.Call) and isinstance(x.func, ast.Attribute) and
-                       x.func.attr == "device_removed_from_mode" and isinstance(x.func.value, ast.Call) and call_attr(x.func.value) == "super"]
-                if not sup or cur.cls is None:
-                    break
-                nxt = repo.lookup_method(cur.cls, "device_removed_from_mode", skip_self=True)
-                if nxt is None or nxt in chain:
-                    break
-                # the super() call itself must be unconditional in cur
-                ccfg = cur.cfg()
-                sn = [n for n in ccfg.nodes if n.kind != "branch" and any(y is sup[0] for y in n.calls())]
-                if not (sn and ccfg.must_pass(ccfg.entry.id, [sn[0].id]) is None):
-                    break
-                chain.append(nxt)
-                cur = nxt
             done = False
             for m in chain:
                 mcfg = m.cfg()
@@ -155,9 +163,11 @@ def check(chk):
                        dr.where(), detail="tabled reason: %s; not on every path: %s" % (reason, missing), construct=c.ident,
                        text="tabled %s.%s preconditions %s" % (c.name, attr, ",".join(missing)))
             else:
-                chk.ob("PAIR-12", "%s drops self.%s (bound to the player on load) on every path of device_removed_from_mode" % (c.name, attr), done,
-                       dl.where(stmt), detail="handlers that stay registered after the mode stopped would keep changing that player's state during "
-                                              "another player's turn", construct=c.ident, text="self.%s not reset on every path in %s" % (attr, c.name))
+                chk.ob("PAIR-12", "%s drops self.%s (bound to the player on load%s) on every path of device_removed_from_mode" % (c.name, attr, inherited),
+                       done, dl.where(stmt),
+                       detail="handlers that stay registered after the mode stopped would keep changing that player's state during "
+                              "another player's turn; unload chain: %s" % [m.qualname for m in chain], construct=c.ident,
+                       text="self.%s not reset on every path in %s" % (attr, c.name))
     chk.expect(n_ref >= 6, "C11: per-player references lost (%d)" % n_ref)
 
     # ------------------------------------------------------------ FLOW-4
